@@ -5,7 +5,7 @@
    atomicity of each call is checked against the real shardManagerImpl by a lock-boundary schedule explorer that
    enumerates every interleaving of the same scenarios and compares the sets of final states. *)
 From Coq Require Import List Arith Bool.
-From S2S Require Import Registry.Model Registry.Explore Registry.Proofs Registry.Unbounded.
+From S2S Require Import Registry.Model Registry.Explore Registry.Proofs Registry.Unbounded Handover.Model Handover.Proofs.
 Import ListNotations.
 
 (* two incarnations: 0 registered and shutting down, 1 registering, a watermark replay at any point.  In EVERY execution
@@ -148,3 +148,33 @@ Theorem C08_receiver_all_ended_empty : forall j r c1 c2 c3 c4,
   r_ack r' = None /\ r_cancel r' = None /\ r_active r' = None /\ amu r' = None.
 Proof. exact receiver_all_ended_empty_unbounded. Qed.
 Print Assumptions C08_receiver_all_ended_empty.
+
+(* The intra-proxy receiver's hand-over (batches from a peer instance put into the delivery channel of the shard's sender,
+   looked up again on every attempt): for ANY sequence of registrations, closes and removals by successive incarnations of
+   the sender, batches from the peer and attempts - nothing is lost, duplicated or reordered: what has been handed over,
+   followed by what is still pending, is exactly what the peer sent. *)
+Theorem C08_handover_exactly_once_in_order : forall l,
+  map snd (h_log (hrun l h0)) ++ h_pending (hrun l h0) = peer_msgs l.
+Proof. exact handover_exactly_once_in_order. Qed.
+Print Assumptions C08_handover_exactly_once_in_order.
+
+(* a batch is only ever handed to the incarnation registered at that moment, whose channel is open at that moment: nothing is
+   sent to a dead incarnation *)
+Theorem C08_handover_to_live_incarnation : forall s o k m,
+  h_log (hexec s o) = h_log s ++ [(k, m)] -> h_reg s = Some k /\ memb k (h_closed s) = false /\ exists rest, h_pending s = m :: rest.
+Proof. exact handover_to_live_incarnation. Qed.
+Print Assumptions C08_handover_to_live_incarnation.
+
+(* whenever an open channel is registered, one attempt hands the pending batch over, whatever happened before *)
+Theorem C08_handover_progress : forall s k m rest,
+  h_reg s = Some k -> memb k (h_closed s) = false -> h_pending s = m :: rest ->
+  h_log (hexec s HTry) = h_log s ++ [(k, m)] /\ h_pending (hexec s HTry) = rest.
+Proof. exact handover_progress. Qed.
+Print Assumptions C08_handover_progress.
+
+(* a receiver that resolved the channel once per batch would keep sending to a dead incarnation for ever *)
+Theorem C08_handover_cached_variant_refuted : forall n,
+  let s := hrun_cached (cached_witness_prefix ++ repeat HTry n) h0 in
+  h_reg s = Some 2 /\ memb 2 (h_closed s) = false /\ h_pending s = [7] /\ h_log s = [].
+Proof. exact cached_variant_refuted. Qed.
+Print Assumptions C08_handover_cached_variant_refuted.
